@@ -191,6 +191,40 @@ def main(tier: str) -> int:
         ops.append({"op": "net_forward", "net": nj, "sched": sch, "weights": [[NL.fbits(v) for v in W[n]] for n in range(3)], "x": xs})
         ctx.append(("forward", d, feats, (outW, impl_outputs_order, outs_ids)))
 
+    # ---- the TRANSLATED softmax kernel (TFV/Generated/Src/Net_softmax_numba.lean, read through TFV.Model.NpQ) evaluated by Lean against the real
+    #      njit function on arrays whose shifted entries are 0 or below -800 (there the double exp is exactly 1 resp. 0, which is what the
+    #      `expo` handed to the Lean definition returns): row maxima, the broadcast subtraction, the row sums and the division are exercised
+    import subprocess
+    from thefittest.utils import softmax_numba as _softmax_numba
+    scases = []
+    for _ in range(20 if tier == "quick" else 150):
+        nr_, nc_ = rng.randint(1, 4), rng.randint(1, 5)
+        rows_ = []
+        for _r in range(nr_):
+            off_ = rng.randint(-8, 8) * 4
+            rows_.append([off_ + rng.choice([0, 0, -800, -1600]) for _ in range(nc_)])
+        scases.append(rows_)
+    slines = ["import TFV.Generated.Src.Net_softmax_numba", "open TFV TFV.Generated.Src",
+              "def showM : Option NpQ.Mat → String | none => \"none\" | some m => toString (m.rows.map fun r => r.map fun q => (q.num, q.den))"]
+    for rows_ in scases:
+        slines.append("#eval IO.println (showM (Net_softmax_numba (fun z => if z = 0 then 1 else 0) { ncols := %d, rows := %s }))"
+                      % (len(rows_[0]), "[" + ", ".join("[" + ", ".join("(%d : Rat)" % v for v in r) + "]" for r in rows_) + "]"))
+    saudit = C.LEAN / "TFV" / "Audit" / "C12_np.lean"
+    saudit.parent.mkdir(parents=True, exist_ok=True)
+    saudit.write_text("\n".join(slines) + "\n")
+    with C.LeanLock():
+        spr = subprocess.run(["lake", "env", "lean", str(saudit.relative_to(C.LEAN))], cwd=C.LEAN, capture_output=True, text=True, timeout=900)
+    sgot = [l.strip() for l in spr.stdout.splitlines() if l.strip()]
+    chk.obligation("the translated softmax kernel evaluates (lake env lean TFV/Audit/C12_np.lean)", spr.returncode == 0 and len(sgot) == len(scases), (spr.stdout + spr.stderr)[-600:])
+    if spr.returncode == 0 and len(sgot) == len(scases):
+        import re as _re
+        for rows_, g in zip(scases, sgot):
+            real = [float(v) for v in np.asarray(_softmax_numba(np.array(rows_, dtype=np.float64))).reshape(-1)]
+            vals = [int(a) / int(b) for a, b in _re.findall(r"\((-?\d+), (\d+)\)", g)]
+            chk.count("np_kernel_softmax")
+            same = len(real) == len(vals) and all(C.close(a, b, 1e-12, 1e-15) for a, b in zip(real, vals))
+            (chk.agree("np_kernel:softmax_numba") if same else chk.disagree("np_kernel:softmax_numba", {"input": {"X": rows_}, "impl": real, "model": g}))
+
     try:
         outs = C.lean_driver([json.dumps(o) for o in ops])
     except Exception as e:
